@@ -33,13 +33,34 @@ def e2e_oracle(hist, records):
         edges = engine.spec_task_edges(spec)
         anc = {t["id"]: engine.closure(edges, t["id"], forward=False) for t in spec["tasks"]}
         pr = {t["id"]: prio_of(t) for t in spec["tasks"]}
+        for t in spec["tasks"]:
+            if t.get("gen"):        # the child 50+id exists (and is ready) once its generator and the producers of its inputs are done
+                kid = 50 + t["id"]
+                pr[kid] = prio_of({"marks": t.get("gen_marks", [])})
+                anc[kid] = anc[t["id"]] | {t["id"]}
+                for u in spec["tasks"]:
+                    if set(u["prods"]) & set(t.get("gen_child_deps", [])):
+                        anc[kid] |= anc[u["id"]] | {u["id"]}
         done = set()
+        gens_done = set()
         for x in order:
+            if x not in pr:
+                continue
+            if not anc[x] <= done:
+                bad.append(("dep-e2e", f"task {x} was started before the task(s) {sorted(anc[x] - done)} it depends on (protocol order {order}): "
+                                       f"priorities / re-creation of the scheduler must not override dependencies", None))
+                break
+            hit = False
             for y in pr:
+                if y >= 50 and (y - 50) not in done:
+                    continue        # a generated task is unknown to the scheduler until its generator has run
                 if y not in done and y != x and pr[y] > pr[x] and anc[y] <= done:
                     bad.append(("prio-e2e", f"task {x} (priority {pr[x]}) was started while task {y} (priority {pr[y]}) was ready and waiting "
                                             f"(protocol order {order})", None))
+                    hit = True
                     break
+            if hit:
+                break
             done.add(x)
     return bad
 
@@ -143,12 +164,58 @@ def e2e_histories(ctx):
     return hs
 
 
+def selection_histories(ctx):
+    """-k / -m selections: deselected tasks still pass through the scheduler and keep their priority class."""
+    from impl import project
+    rng = ctx.rng
+    hs = []
+    for _ in range(ctx.scale(16, 200)):
+        spec = engine.gen_spec(rng, nt=(4, 8), after_p=0.15, after_needs_prods=True, dens=0.3, user_markers=True,
+                               marks=(("try_first", 0.35), ("try_last", 0.35)))
+        names = [project.tname(t["id"]) for t in spec["tasks"]]
+        r = rng.random()
+        if r < 0.5:
+            cfg = {"k": " or ".join(rng.sample(names, rng.randint(1, 2)))}
+        elif r < 0.8:
+            cfg = {"m": rng.choice(["markone", "marktwo", "not markone", "markone or marktwo"])}
+        else:
+            cfg = {"k": "not " + rng.choice(names)}
+        hs.append({"tag": "select", "spec": spec, "steps": [["build", cfg]]})
+    return hs
+
+
+def recreate_histories(ctx):
+    """The scheduler is re-created while the build runs (a DirectoryNode product is resolved, a task generator has run):
+    priorities and `after` declarations must survive. Implementation-only oracle (e2e_oracle)."""
+    rng = ctx.rng
+    hs = []
+    # corpus: Z (try_first, directory product) runs first and re-creates the scheduler; Y (try_first) is declared after X (unmarked)
+    hs.append({"tag": "corpus-recreate-after", "spec": {"tasks": [
+        {"id": 0, "module": 0, "deps": [], "prods": [20], "after": [], "marks": ["try_first"], "beh": "ok", "style": "default", "dirprod": "a"},
+        {"id": 1, "module": 0, "deps": [], "prods": [21], "after": [], "marks": [], "beh": "ok", "style": "default"},
+        {"id": 2, "module": 0, "deps": [], "prods": [22], "after": [1], "after_style": "func", "marks": ["try_first"], "beh": "ok", "style": "default"},
+        {"id": 3, "module": 0, "deps": [], "prods": [23], "after": [], "marks": [], "beh": "ok", "style": "default"}],
+        "versions": {"0": 0}, "inputs": {}}, "steps": [["build", {}]]})
+    for _ in range(ctx.scale(24, 300)):
+        spec = engine.gen_spec(rng, nt=(4, 8), after_p=0.5, after_needs_prods=True, dens=0.3, prodless_p=0.05, dirprod_p=0.35,
+                               styles=("default", "annotated", "kwargs"), marks=(("try_first", 0.35), ("try_last", 0.3)))
+        aftered = {a for t in spec["tasks"] for a in t["after"]}
+        for t in spec["tasks"]:
+            if rng.random() < 0.2 and t["id"] not in aftered and not t.get("dirprod"):
+                t["gen"] = True
+                t["gen_marks"] = rng.choice([[], ["try_first"], ["try_last"]])
+        hs.append({"tag": "recreate", "spec": spec, "steps": [["build", {}]]})
+    return hs
+
+
 def run(ctx):
     ctx.rule = ("(a) op sequences new/get_ready(n)/done(xs)/from_dag_and_sorter on the real TopologicalSorter; exhaustive small scope + seeded "
                 "random bipartite DAGs ≤12 tasks; non-trivial = ≥2 non-empty get_ready answers and (≥2 distinct priorities or ≥1 edge); "
                 "distinct by canonical (graph, priorities, n-sequence, policy, observed op trace); "
                 "(b) generated projects with try_first/try_last marks built through pytask.build under several PYTHONHASHSEEDs: observed protocol order "
-                "checked against the ready sets reconstructed from the spec and replayed in the Lean engine; both marks on one task ⇒ exit 3")
+                "checked against the ready sets reconstructed from the spec and replayed in the Lean engine; both marks on one task ⇒ exit 3; "
+                "also with -k/-m selections and (implementation-only) with schedulers re-created by DirectoryNode products / task generators; "
+                "(c) decorator stacks and generated tasks in the prog stream")
     sorter_api.campaign(ctx, KINDS)
     hs = e2e_histories(ctx)
 
@@ -157,6 +224,8 @@ def run(ctx):
 
     engine.run_campaign(ctx, hs[:1], e2e_oracle, nontrivial=nontrivial, compare_model=False)   # both marks: rejected at collection
     engine.run_campaign(ctx, hs[1:], e2e_oracle, nontrivial=nontrivial)
+    engine.run_campaign(ctx, selection_histories(ctx), e2e_oracle, nontrivial=nontrivial, sel_eval=engine.sel_eval)
+    engine.run_campaign(ctx, recreate_histories(ctx), e2e_oracle, nontrivial=nontrivial, compare_model=False)
     prog_stream(ctx)
 
 
@@ -165,7 +234,9 @@ def replay(ctx, obj):
         return False, "prog-stream cases are replayed by re-running the check with the same seed (case: %s)" % obj["input"].get("case")
     if obj["input"].get("layer") == "engine-e2e":
         h = obj["input"]["history"]
-        engine.run_campaign(ctx, [h] * 4, e2e_oracle, compare_model=not h.get("tag", "").startswith("corpus-both"))
+        tag = h.get("tag", "")
+        engine.run_campaign(ctx, [h] * 4, e2e_oracle, compare_model=not (tag.startswith("corpus-both") or "recreate" in tag),
+                            sel_eval=engine.sel_eval if tag == "select" else None)
         if ctx.violations:
             return False, ctx.violations[0]["what"]
         if ctx.disagreements:
